@@ -3,7 +3,7 @@
 From Coq Require Import String List Bool NArith ZArith.
 From OP Require Import Base.Str Base.Check Base.ParserTypes Base.Res Base.Json Base.Sx Base.DTree
                        Gen.GParser Gen.GChecks Gen.GPolicy
-                       Model.Leaf Model.SR Model.Tokenize Model.Print Model.Eval Model.Trace Model.Enforce Model.CheckRules Model.Load Model.Pick Model.Http Model.Generator Model.Checker
+                       Model.Leaf Model.SR Model.Tokenize Model.Print Model.Eval Model.Trace Model.Enforce Model.CheckRules Model.Load Model.Pick Model.Http Model.Generator Model.Checker Model.Tools
                        Spec.Grammar Spec.ListRule Spec.Template Spec.LeafSpec Spec.Layering.
 Import ListNotations.
 Set Implicit Arguments.
@@ -546,6 +546,22 @@ Definition suite_checker (args : list sx) : sx :=
   | _ => bad
   end.
 
+(* ---------- rewriting tools: [tool; defaults; file] -> resulting file / names ---------- *)
+Definition sx_of_content (ct : content) : sx :=
+  sx_of_list (fun p => L [sx_of_str (fst p); sx_of_jv (snd p)]) ct.
+Definition suite_tools (args : list sx) : sx :=
+  match args with
+  | [A t; regs; file] =>
+      match dlist drdef regs, dcontent file with
+      | Some regs', Some f =>
+          if t =? 0 then sx_of_content (upgrade regs' f)
+          else if t =? 1 then sx_of_content (convert regs' f)
+          else if t =? 2 then sx_of_content (generate regs' f)
+          else sx_of_list sx_of_str (redundant regs' f)
+      | _, _ => bad end
+  | _ => bad
+  end.
+
 Definition wire_main (x : sx) : sx :=
   match x with
   | L (A 1 :: args) => suite_tokenize args
@@ -564,5 +580,6 @@ Definition wire_main (x : sx) : sx :=
   | L (A 14 :: args) => suite_tls args
   | L (A 15 :: args) => suite_sample args
   | L (A 16 :: args) => suite_checker args
+  | L (A 17 :: args) => suite_tools args
   | _ => sx_err 1
   end.
